@@ -20,6 +20,7 @@
 // the C06 invariants are asserted after every engine call.
 #include "common/tls_session.hpp"
 #include "common/tls_hello.hpp"
+#include "common/tls_mbed.hpp"
 
 using namespace vf;
 using namespace tls;
@@ -488,6 +489,152 @@ static void mode_reneg(Tape &t)
 	if (stats.want_sample()) stats.sample(d2 + fmt(" => %d key changes, errors %d/%d, delivered %zu/%zu of %zu/%zu", epochs, e[0]->error(), e[1]->error(), S.recvd[0], S.recvd[1], S.sent[0], S.sent[1]));
 }
 
+// mode 4: renegotiation with a peer that is not this library (mbedTLS 2.28,
+// RFC 5746 on both roles).  Data, barrier, ONE renegotiation request by the
+// BearSSL side or by the foreign side, barrier, data, orderly close.  The
+// foreign stack verifies BearSSL's renegotiation_info and refuses a wrong
+// one; the wiretap checks BearSSL's own hello against the previous Finished
+// values; with BR_OPT_NO_RENEGOTIATION the BearSSL side must answer the
+// foreign request with a warning and stay usable.
+static void mode_foreign_reneg(Tape &t)
+{
+	static const Cfg FC[] = { { 0x002F, 0x0301 }, { 0x002F, 0x0302 }, { 0x009C, 0x0303 }, { 0xCCA8, 0x0303 }, { 0xC0AE, 0x0303 }, { 0x003D, 0x0303 }, { 0xC02C, 0x0303 }, { 0xC004, 0x0301 }, { 0xC031, 0x0303 }, { 0xC013, 0x0302 } };
+	const Cfg &cf = FC[t.u8() % (sizeof FC / sizeof FC[0])];
+	const wt::SuiteInfo *si = wt::suite_by_id(cf.suite);
+	bool bear_client = t.flag();
+	unsigned who = t.u8() % 4;     // 0: BearSSL asks, 1: the foreign peer asks, 2: the foreign peer asks and BearSSL has BR_OPT_NO_RENEGOTIATION, 3: both ask in turn
+	Profile cp, sp;
+	cp.suites = { cf.suite }; sp.suites = { cf.suite };
+	cp.vmin = cp.vmax = sp.vmin = sp.vmax = cf.version;
+	sp.key = keys_for(si)[0];
+	Profile &bp = bear_client ? cp : sp;
+	unsigned lb = t.u8();
+	bp.layout = (Layout)(lb % 3);
+	if (bp.layout == L_BIDI) bp.buflen = BR_SSL_BUFSIZE_BIDI;
+	bp.esp = (lb >> 4) & 1;
+	if (who == 2) bp.flags = BR_OPT_NO_RENEGOTIATION;
+	bp.entropy = t.filled(32);
+	if (bp.entropy == Bytes(32, 0)) bp.entropy[0] = 1;
+	std::unique_ptr<Endpoint> cl, sv;
+	BearEndpoint *be;
+	MbedEndpoint *me;
+	uint64_t mseed = 0;
+	for (uint8_t x : bp.entropy) mseed = mseed * 131 + x;
+	if (bear_client) {
+		BearClient *c = new BearClient(cp); cl.reset(c); be = c;
+		VF_CHECK(c->reset(), "client reset failed");
+		me = new MbedEndpoint(false, sp, mseed); sv.reset(me);
+	} else {
+		me = new MbedEndpoint(true, cp, mseed); cl.reset(me);
+		BearServer *s = new BearServer(sp); sv.reset(s); be = s;
+		VF_CHECK(s->reset(), "server reset failed");
+	}
+	me->enable_renegotiation();
+	Session S(cl.get(), sv.get());
+	S.tape = &t;
+	S.wire_out_pol[0] = draw_pol(t); S.wire_out_pol[1] = draw_pol(t);
+	S.wire_in_pol[0] = draw_pol(t); S.wire_in_pol[1] = draw_pol(t);
+	S.app_pol = draw_pol(t);
+	if (S.app_pol.mode == CH_FIXED && S.app_pol.k < 16) S.app_pol.k += 16;
+	S.jitter = t.flag();
+	int bside = bear_client ? 0 : 1, fside = 1 - bside;
+	auto writes = [&](int side) {
+		unsigned n = 1 + t.u8() % 3;
+		for (unsigned i = 0; i < n; i++) {
+			Item it; it.kind = IT_WRITE;
+			unsigned sel = t.u8();
+			it.len = sel % 4 == 0 ? 1 + sel / 4 : sel % 4 == 1 ? 100 + sel * 3 : sel % 4 == 2 ? 3000 + sel * 20 : 17000;
+			it.flush = true;
+			S.script[side].push_back(it);
+		}
+		S.script[side].push_back(Item{ IT_FLUSH, 0, true });
+	};
+	// phase 1: data both ways, then a barrier (BearSSL refuses application data that crosses a renegotiation: listed finding F51;
+	// mbedTLS refuses it as well while it waits for a hello)
+	writes(0); writes(1);
+	int rounds = who == 3 ? 2 : 1;
+	for (int r = 0; r < rounds; r++) {
+		int asker = who == 0 ? bside : who == 3 ? (r == 0 ? bside : fside) : fside;
+		for (int side = 0; side < 2; side++) {
+			S.script[side].push_back(Item{ IT_SYNC, (size_t)(1 + r), true });
+			if (side == asker) S.script[side].push_back(Item{ IT_RENEG, 0, true });
+			if (who != 2) S.script[side].push_back(Item{ IT_WAIT_EPOCH, (size_t)(2 + r), true });
+		}
+		if (who != 2) { writes(0); writes(1); }
+	}
+	if (who == 2) {
+		// the BearSSL side goes on writing after it declined; the foreign side only reads
+		writes(bside);
+	} else {
+		int closer = t.u8() & 1;
+		S.script[closer].push_back(Item{ IT_WAIT_PEER_IDLE, 0, true });
+		S.script[closer].push_back(Item{ IT_CLOSE, 0, true });
+	}
+	static const char *ln[] = { "mono", "bidi", "split" };
+	std::string desc = fmt("foreign renegotiation: %s %s TLS%s, BearSSL %s%s, %s", bear_client ? "bear-client<->mbedtls-server" : "mbedtls-client<->bear-server",
+		si->name, ver_name(cf.version), ln[bp.layout], bp.esp ? "/esp" : "",
+		who == 0 ? "BearSSL asks" : who == 1 ? "mbedTLS asks" : who == 2 ? "mbedTLS asks, BearSSL has BR_OPT_NO_RENEGOTIATION" : "BearSSL asks, then mbedTLS asks");
+	S.run(3000000);
+	VF_CHECK(S.established, "%s: first handshake did not complete (errors %d/%d)", desc.c_str(), cl->error(), sv->error());
+	for (int d = 0; d < 2; d++) {
+		bool ok = S.tap.advance(d, true);
+		VF_CHECK(ok && S.tap.decode_error.empty(), "%s: %s", desc.c_str(), S.tap.decode_error.c_str());
+	}
+	if (who == 2) {
+		VF_CHECK(S.reneg_result[fside] == 1, "harness: mbedTLS did not start the renegotiation");
+		VF_CHECK(S.tap.epoch[0] <= 1 && S.tap.epoch[1] <= 1, "%s: a second key change happened although renegotiation is disabled", desc.c_str());
+		unsigned warn = count_alerts(S, bside, 1, 100), fatal = count_alerts(S, bside, 2, -1);
+		std::string wire;
+		for (int d = 0; d < 2; d++) {
+			wire += d ? " | server:" : "client:";
+			for (auto &p : S.tap.plain[d]) if (p.epoch > 0) wire += fmt(" %u/%zu%s", p.type, p.data.size(), p.type == 22 && !p.data.empty() ? fmt("(hs%u)", p.data[0]).c_str() : "");
+		}
+		// (an mbedTLS server repeats its HelloRequest when it reads something else: one warning per request)
+		unsigned asked = 0;
+		for (auto &p : S.tap.plain[fside]) if (p.epoch > 0 && p.type == 22 && !p.data.empty() && p.data[0] == (bear_client ? 0 : 1)) asked++;
+		VF_CHECK(asked >= 1, "harness: no renegotiation request on the wire [%s]", wire.c_str());
+		VF_CHECK(warn == asked && fatal == 0, "%s: BearSSL answered %u request(s) with %u warning no_renegotiation and %u fatal alerts [%s]", desc.c_str(), asked, warn, fatal, wire.c_str());
+		VF_CHECK(be->error() == 0 && !be->closed(), "%s: BearSSL side failed with error %d after declining", desc.c_str(), be->error());
+		// (mbedTLS gives up after 16 records without the hello it asked for, so how much of the later data it reads is its own policy;
+		// what it did read was checked byte by byte against what was written)
+		stats.cls("foreign-reneg:declined-with-warning");
+	} else {
+		VF_CHECK(cl->error() == 0 && sv->error() == 0, "%s: ended with errors client=%d server=%d (key changes %d/%d)", desc.c_str(), cl->error(), sv->error(), S.tap.epoch[0], S.tap.epoch[1]);
+		VF_CHECK(S.tap.epoch[0] == 1 + rounds && S.tap.epoch[1] == 1 + rounds, "%s: %d/%d key changes, expected %d", desc.c_str(), S.tap.epoch[0], S.tap.epoch[1], 1 + rounds);
+		VF_CHECK(S.scripts_done() && cl->closed() && sv->closed(), "%s: did not finish (script items left %zu/%zu, closed %d/%d)", desc.c_str(), S.script[0].size(), S.script[1].size(), (int)cl->closed(), (int)sv->closed());
+		for (int d = 0; d < 2; d++) VF_CHECK(S.recvd[d] == S.sent[d], "%s: %s wrote %zu bytes, peer read %zu", desc.c_str(), d ? "server" : "client", S.sent[d], S.recvd[d]);
+		if (who == 0 || who == 3) VF_CHECK(S.reneg_result[bside] == 1, "%s: renegotiate() refused on an idle, secure-renegotiation connection", desc.c_str());
+		// the BearSSL hello of every renegotiated handshake is bound to the previous Finished values
+		for (int ep = 1; ep <= rounds; ep++) {
+			Bytes fin[2], hello[2];
+			for (int d = 0; d < 2; d++) {
+				Bytes hs;
+				for (auto &p : S.tap.plain[d]) if (p.epoch == ep && p.type == 22) hs.insert(hs.end(), p.data.begin(), p.data.end());
+				size_t o = 0;
+				while (o + 4 <= hs.size()) {
+					size_t ml = ((size_t)hs[o + 1] << 16) | ((size_t)hs[o + 2] << 8) | hs[o + 3];
+					if (o + 4 + ml > hs.size()) break;
+					Bytes m(hs.begin() + o, hs.begin() + o + 4 + ml);
+					if (hs[o] == 20 && fin[d].empty()) fin[d].assign(m.begin() + 4, m.end());
+					if ((hs[o] == 1 || hs[o] == 2) && hello[d].empty()) hello[d] = m;
+					o += 4 + ml;
+				}
+			}
+			VF_CHECK(!hello[0].empty() && !hello[1].empty() && !fin[0].empty() && !fin[1].empty(), "%s: renegotiated handshake %d not found on the wire", desc.c_str(), ep);
+			Bytes ri, want = fin[0];
+			if (!bear_client) want.insert(want.end(), fin[1].begin(), fin[1].end());
+			VF_CHECK(find_ri(hello[bside], ri), "%s: BearSSL's renegotiation hello carries no renegotiation_info", desc.c_str());
+			VF_CHECK(ri == want, "%s: BearSSL's renegotiation hello is not bound to the previous Finished value(s): %s vs %s", desc.c_str(), hex(ri.data(), ri.size()).c_str(), hex(want.data(), want.size()).c_str());
+			stats.cls("foreign-reneg:binding-checked");
+		}
+		unsigned cn[2] = { count_alerts(S, 0, 1, 0), count_alerts(S, 1, 1, 0) };
+		VF_CHECK(cn[bside] == 1, "%s: %u close_notify alerts from the BearSSL side", desc.c_str(), cn[bside]);
+	}
+	stats.cls(fmt("foreign-reneg:%s/%s", bear_client ? "bear-client" : "bear-server", who == 0 ? "bear-asks" : who == 1 ? "peer-asks" : who == 2 ? "peer-asks-declined" : "both-in-turn"));
+	stats.eval(fmt("freneg/%04x/%u/%d/%u/%d%d", si->id, cf.version, (int)bear_client, who, bp.layout, (int)bp.esp));
+	if (stats.want_sample()) stats.sample(desc + fmt(" => key changes %d/%d, delivered %zu+%zu bytes", S.tap.epoch[0], S.tap.epoch[1], S.recvd[0], S.recvd[1]));
+}
+
 // Directed probe for listed finding F11: a renegotiation request reaches a
 // side with BR_OPT_NO_RENEGOTIATION while that side still has a record to send.
 static void probe_f11()
@@ -727,7 +874,9 @@ static bool probes_done = false;
 void target_run(Tape &t)
 {
 	if (!probes_done) { probes_done = true; probe_f11(); probe_reneg_without_binding(); probe_simultaneous_reneg(); probe_warning_while_closing(); probe_declined_hello_request_then_data(); probe_data_crossing_renegotiation(); }
-	unsigned m = t.u8() % 8;
+	unsigned m0 = t.u8();
+	if (m0 >= 224) { mode_foreign_reneg(t); return; }
+	unsigned m = m0 % 8;
 	if (m < 2) mode_close(t);
 	else if (m < 4) mode_cut(t);
 	else if (m < 6) mode_alert(t);
